@@ -45,6 +45,11 @@ def crate_probes(nc, nt):
     for c in range(1, nc + 1):
         ops += [{"op": "remove_crate", "c": c, "probe": True}, {"op": "remove_crate", "c": c, "probe": True},
                 {"op": "probe_crate", "c": c, "probe": True}, {"op": "create_sub", "c": c, "n": "z", "probe": True}]
+    # membership calls through handles to removed crates, with a live track and with ids of nothing
+    ops.append({"op": "create_track", "probe": True})
+    for c in range(1, nc + 1):
+        ops += [{"op": "add_track", "c": c, "t": nt + 1, "probe": True}, {"op": "add_track_id", "c": c, "id": 424242, "probe": True},
+                {"op": "remove_track_from", "c": c, "t": nt + 1, "probe": True}, {"op": "clear_tracks", "c": c, "probe": True}]
     ops.append({"op": "create_root", "n": "@long100000", "probe": True})
     # handles of another library object (one per schema family) as arguments
     ops.append({"op": "create_root", "n": "pfroot", "probe": True})
@@ -114,7 +119,7 @@ def check_C15(tier, seed):
             for x in r.sample(sc, min(n1, len(sc))) + r.sample(sc2, min(n1, len(sc2))):
                 nc, nt = count_handles(x)
                 picked.append(list(x) + crate_probes(max(nc, 1), nt))
-            ws.append(Workload(s, picked, libcheck.NAMES4 + ["d"], origin=st["instance"] + " + probes"))
+            ws.append(Workload(s, picked, libcheck.NAMES4 + ["d"], flags={"raw": True}, origin=st["instance"] + " + probes"))
             # two database objects on one directory, handles of both mixed as arguments (MultiConn), in the sanitizer build
             if s in ("1.6.0", "1.18.0o", "2.18.0", "2.21.2") or tier != "quick":
                 n2 = 6 if tier == "quick" else 40
